@@ -23,11 +23,20 @@ def shift(pos, k):
 def allowed_set(cfg, role, var, pos):
     """D-table: (kind, var, role, position) tuples allowed in the support"""
     A = set()
-    first = pos is None or pos in (("first", 0), ("only",))
-    last = pos is None or pos in (("last", 0), ("only",))
+    conc = 4 if (cfg.link_cls == "LinkWithVsl" and not cfg.n1) else None  # concrete N of wire.py
+    vsl = ([0] if cfg.n1 else [1, 3]) if cfg.link_cls == "LinkWithVsl" else []
+    if conc is not None and pos is not None and pos[0] == "first":
+        first = pos[1] == 0
+        last = pos[1] == conc - 1
+        p_first, p_last = ("first", 0), ("first", conc - 1)
+        index = pos[1]
+    else:
+        first = pos is None or pos in (("first", 0), ("only",))
+        last = pos is None or pos in (("last", 0), ("only",))
+        p_first = ("only",) if cfg.n1 else ("first", 0)
+        p_last = ("only",) if cfg.n1 else ("last", 0)
+        index = 0 if (pos is None or cfg.n1) else None
     p_own = ("only",) if (pos is None or cfg.n1) else pos
-    p_first = ("only",) if cfg.n1 else ("first", 0)
-    p_last = ("only",) if cfg.n1 else ("last", 0)
     org_vars = set()
     if cfg.u_origin in ("MeteredOnRamp",):
         org_vars = {("s", "ORG.w"), ("s", "ORG.d"), ("s", "ORG.r"), ("sa", "rho", "SELF", p_first)}
@@ -51,8 +60,10 @@ def allowed_set(cfg, role, var, pos):
         return A
     if var == "v":
         A |= {("sa", "rho", "SELF", p_own), ("sa", "v", "SELF", p_own)}
-        A.add(("sa", "v_ctrl", "SELF", ("rank", "vsl", "SELF", p_own)))
-        A.add(("sa", "v_ctrl", "SELF", ("rank", "vsl", None, p_own)))
+        # the speed limit of this very segment, if it has one
+        if index is not None and index in vsl:
+            j = vsl.index(index)
+            A.add(("sa", "v_ctrl", "SELF.vsl", ("only",) if len(vsl) == 1 else ("first", j)))
         if not first:
             A.add(("sa", "v", "SELF", shift(pos, -1)))
         else:
@@ -77,5 +88,3 @@ def allowed_set(cfg, role, var, pos):
                 A.add(("sa", "rho", "DOUT*", ("first", 0)))
         return A
     return A
-
-
